@@ -83,6 +83,36 @@ impl DbcHeader {
         DbcHeader::SIZE as u64 + (self.record_count as u64 * self.record_size as u64)
     }
 
+    /// Checks that the record area this (untrusted) header describes lies inside `data_len`
+    /// bytes. Readers call this before sizing any buffer from the header's counts.
+    pub fn check_fits(&self, data_len: u64) -> Result<()> {
+        if self.record_count > 0 && self.record_size == 0 {
+            return Err(Error::InvalidHeader(
+                "Record size cannot be 0 if record count is greater than 0".to_string(),
+            ));
+        }
+        let records = self.record_count as u64 * self.record_size as u64;
+        if DbcHeader::SIZE as u64 + records > data_len {
+            return Err(Error::InvalidHeader(format!(
+                "{} records of {} bytes do not fit in {} bytes of data",
+                self.record_count, self.record_size, data_len
+            )));
+        }
+        Ok(())
+    }
+
+    /// Checks, for schema-less reading (every field a 32-bit value), that the field count is
+    /// not larger than the data could hold.
+    pub fn check_raw_fields_fit(&self, data_len: u64) -> Result<()> {
+        if self.record_count > 0 && self.field_count as u64 * 4 > data_len {
+            return Err(Error::InvalidHeader(format!(
+                "{} fields per record do not fit in {} bytes of data",
+                self.field_count, data_len
+            )));
+        }
+        Ok(())
+    }
+
     /// Calculates the total size of the DBC file
     pub fn total_size(&self) -> u64 {
         self.string_block_offset() + self.string_block_size as u64
